@@ -240,6 +240,9 @@ pub struct World {
 	/// miner policy: a relayed transaction is held back for up to this many blocks (0 = mined at once)
 	pub miner_delay_max: u32,
 	pub miner_release: HashMap<Txid, u32>,
+	/// conclusive events handled so far, per node (chain-delivery comparisons)
+	pub event_log: Vec<(usize, String)>,
+	pub chain_equiv: bool,
 }
 
 fn lk(a: usize, b: usize) -> ((usize, usize), usize) {
@@ -256,7 +259,7 @@ impl World {
 		log.trace.store(trace && std::env::var("VERIF_TAP_TRACE").is_ok(), Ordering::Relaxed);
 		let best = BlockLocator::new(bitcoin::constants::genesis_block(bitcoin::Network::Regtest).header.block_hash(), crate::chain::BASE_HEIGHT);
 		let nodes: Vec<Node> = node_cfgs.into_iter().enumerate().map(|(i, c)| Node::new(i, c, &log, fee_now, best.clone())).collect();
-		World { rng: seed_rng, log, log_cursor: 0, nodes, chans: vec![], links: HashMap::new(), chain: Chain::new(), obs: VecDeque::new(), step: 0, claimable: vec![], payments: vec![], regs: vec![], script: vec![], trace, fee_now, next_user_id: 1, funding_txs: HashMap::new(), spendable: vec![], watch_counts: HashMap::new(), snapshot_counts: vec![], total_writes: vec![], crashes_handled: 0, writes_at_open: vec![], captured: vec![], revocations_seen: Default::default(), cp_commit_numbers: HashMap::new(), close: None, attacker_htlc_txs: vec![], onchain_done: false, miner_delay_max: 0, miner_release: HashMap::new() }
+		World { rng: seed_rng, log, log_cursor: 0, nodes, chans: vec![], links: HashMap::new(), chain: Chain::new(), obs: VecDeque::new(), step: 0, claimable: vec![], payments: vec![], regs: vec![], script: vec![], trace, fee_now, next_user_id: 1, funding_txs: HashMap::new(), spendable: vec![], watch_counts: HashMap::new(), snapshot_counts: vec![], total_writes: vec![], crashes_handled: 0, writes_at_open: vec![], captured: vec![], revocations_seen: Default::default(), cp_commit_numbers: HashMap::new(), close: None, attacker_htlc_txs: vec![], onchain_done: false, miner_delay_max: 0, miner_release: HashMap::new(), event_log: vec![], chain_equiv: false }
 	}
 	/// Whether the victim (the other party) has processed the revocation of this captured commitment.
 	pub fn is_revoked(&self, c: &crate::onchain::Captured) -> bool {
@@ -609,6 +612,11 @@ impl World {
 				}
 			},
 			_ => {},
+		}
+		if self.chain_equiv {
+			if let Some(k) = crate::chainequiv::event_key(&e) {
+				self.event_log.push((n, k));
+			}
 		}
 		self.obs.push_back(Obs::Event { step: self.step, node: n, ev: e });
 	}
